@@ -371,7 +371,7 @@ class BaseSamples:
         if not all(s.dtype == samples[0].dtype for s in samples):
             raise ValueError("Dtypes do not match")
         xp = samples[0].xp
-        return cls(
+        out = cls(
             x=xp.concatenate([s.x for s in samples], axis=0),
             log_likelihood=xp.concatenate(
                 [s.log_likelihood for s in samples], axis=0
@@ -387,6 +387,28 @@ class BaseSamples:
             parameters=samples[0].parameters,
             dtype=samples[0].dtype,
         )
+        # What the pieces carry as a whole (temperature, attached evidence) is
+        # carried by their union when every piece carries the same value, as
+        # the pieces of one set do
+        for name in (
+            "beta",
+            "log_evidence",
+            "log_evidence_error",
+            "evidence",
+            "evidence_error",
+        ):
+            if not hasattr(out, name):
+                continue
+            values = [getattr(s, name, None) for s in samples]
+            if any(v is None for v in values):
+                continue
+            try:
+                same = all(float(v) == float(values[0]) for v in values)
+            except (TypeError, ValueError):
+                same = False
+            if same:
+                setattr(out, name, values[0])
+        return out
 
     @classmethod
     def from_samples(cls, samples: BaseSamples, **kwargs) -> BaseSamples:
